@@ -107,6 +107,8 @@ func permutations(xs []string) [][]string {
 	return out
 }
 
+var c05Shared *hessian.Decoder
+
 func c05Run(c *ctx, order []string, extras int, pos int, capital bool, seed uint64, label string) {
 	r := newRng(seed, "bind")
 	vals, full := bindFieldValues(r)
@@ -164,7 +166,11 @@ func c05Run(c *ctx, order []string, extras int, pos int, capital bool, seed uint
 	// a second instance of the same definition, to check that instances pick the definition by index
 	second := hObj("Bind", names, wvals)
 	msg.items = append(msg.items, second)
-	bs, nch, varied, err := renderChecked(msg, newRng(seed, "render"))
+	var pre []hclass
+	if seed%3 == 0 { // a definition of a class the type map does not know, ahead of everything (never instantiated)
+		pre = []hclass{{"com.unknown.Ghost", []string{"x", "y"}}}
+	}
+	bs, nch, varied, err := renderCheckedPre(msg, newRng(seed, "render"), pre)
 	if err != nil {
 		c.fail("harness: renderer failed", in, err.Error(), "harness")
 		return
@@ -175,7 +181,18 @@ func c05Run(c *ctx, order []string, extras int, pos int, capital bool, seed uint
 		c.corr("parse "+hx(bs), "ok "+msg.String())
 	}
 	var dec interface{}
-	o, m := guard(func() error { var e error; dec, e = hessian.ToObject(bs, tm); return e })
+	o, m := guard(func() error {
+		var e error
+		if c05Shared != nil && seed%2 == 1 { // through ONE decoder reused for every message of the run
+			for k, v := range tm {
+				c05Shared.RegisterType(k, v)
+			}
+			dec, e = c05Shared.Decode(bs)
+		} else {
+			dec, e = hessian.ToObject(bs, tm)
+		}
+		return e
+	})
 	if o != oOK {
 		c.fail("a legal message with a permuted/extended class definition is rejected", in, o.String()+": "+m+" bytes="+hx(trunc(bs, 160)), "")
 		return
@@ -217,6 +234,7 @@ func runC05(c *ctx) {
 	}
 	c.rule = "class definitions derived from a 7-field Go struct (int32, string, *struct, []int32, float64, int64, bool) by: ALL 120 permutations of every 5-field subset sample, random permutations of 6-7 fields, dropping fields, adding 0..3 unknown fields (each carrying a value of any kind incl. nested objects, lists, maps), upper/lower-case first letters; at every position 0..40 of the class in the stream's definition table (preceded by that many other classes with instances); two instances per definition; rendered by the certified reference encoder with random form choices; oracle: by-name expectation per field. Distinct by (order, extras, position, case, seed); all non-trivial."
 	fields := []string{"a", "b", "c", "d", "e", "f", "g"}
+	c05Shared = hessian.NewDecoder(nil, map[string]reflect.Type{})
 	cnt := 0
 	run := func(order []string, extras, pos int, capital bool, label string) {
 		seed := c.seed*4099 + uint64(cnt)
